@@ -1,3 +1,51 @@
-import Dbus.Model.Encode
+import Dbus.Proofs.Endian
+/-
+  C02 — built messages serialise to valid wire format and round-trip exactly.
+
+  A construction program (any sequence of API calls) denotes an abstract message `m`; the
+  K-tie shows that the library's incremental writer produces `encodeMsg m` byte for byte. The
+  theorems below are about `encodeMsg m` for *every* well-formed `m`.
+-/
 namespace Dbus.Props.C02
+open Dbus Dbus.Spec Dbus.Model Dbus.Proofs.Message
+
+/-- **Serialises to a valid message, parses back identically.** -/
+theorem marshal_roundtrip (mx fds : Nat) (m : Msg) (h : WFMsg mx fds m) :
+    loadOne true mx fds (encodeMsg m) = .ok m (encodeMsg m).length := by
+  have := loadOne_encodeMsg h []
+  simpa using this
+
+/-- **Re-serialisation is byte-identical**: whatever parses re-encodes to the bytes it came from. -/
+theorem remarshal_identical (mx fds : Nat) (bs : Bytes) (m : Msg) (n : Nat)
+    (h : loadOne true mx fds bs = .ok m n) : encodeMsg m = bs.take n :=
+  (loadOne_sound h).2.1.symm
+
+/-- **The other byte order changes no value**: the image of a message in the other byte order
+    is a valid message and parses to the same type, flags, serial, header fields and body
+    values — only the byte-order mark differs. -/
+theorem byteswap_values (mx fds : Nat) (m : Msg) (e' : Endian) (h : WFMsg mx fds m) :
+    loadOne true mx fds (encodeMsg { m with endian := e' }) =
+      .ok { m with endian := e' } (encodeMsg { m with endian := e' }).length :=
+  marshal_roundtrip mx fds _ (wfMsg_endian e' h)
+
+/-- converting there and back is the identity on the bytes -/
+theorem byteswap_involutive (m : Msg) (e' : Endian) :
+    encodeMsg { ({ m with endian := e' } : Msg) with endian := m.endian } = encodeMsg m := by
+  cases m; rfl
+
+/-- the size of a message does not depend on the byte order -/
+theorem byteswap_same_length (m : Msg) (e' : Endian) :
+    (encodeMsg { m with endian := e' }).length = (encodeMsg m).length := by
+  rw [encodeMsg_length, encodeMsg_length]
+  show align8 (16 + (encodeList e' 16 (m.fields.map fieldVal)).length) + (encodeList e' 0 m.body).length = _
+  rw [encodeList_length_endian e' m.endian, encodeList_length_endian e' m.endian]
+  rfl
+
+/-- **A copy is the same message with serial zero** (so it is not yet a valid wire message:
+    the serial is assigned when it is sent). -/
+theorem copy_differs_only_in_serial (m : Msg) :
+    ({ m with serial := 0 } : Msg).fields = m.fields ∧ ({ m with serial := 0 } : Msg).body = m.body ∧
+    ({ m with serial := 0 } : Msg).mtype = m.mtype ∧ ({ m with serial := 0 } : Msg).flags = m.flags :=
+  ⟨rfl, rfl, rfl, rfl⟩
+
 end Dbus.Props.C02
